@@ -371,6 +371,16 @@ func runC05(ctx *runCtx) {
 			rep.violate(Violation{Kind: "property", Shape: r.sh, What: r.w, Replay: cc})
 		}
 	}
+	// a client connection closed while one of its frame writes is stuck in the transport: later
+	// connections must not receive its bytes (the frame lock must cover the whole life of the frame)
+	{
+		sh, w := staleWriterScenario(3)
+		rep.eval("scenario/stale-writer")
+		rep.count("scenario:stale-writer")
+		if sh != "" {
+			rep.violate(Violation{Kind: "property", Shape: sh, What: w, Replay: map[string]interface{}{"scenario": "stale-writer"}})
+		}
+	}
 	if raceEnabled {
 		rep.count("race-detector-on")
 	}
